@@ -342,10 +342,14 @@ func runOne(sp solverSpec, file string, timeoutS int, ctx context.Context) Solve
 	if ctx.Err() != nil {
 		return SolverResult{Status: "cancelled", Solver: sp.name}
 	}
-	argv := sp.argv(file, timeoutS)
-	cctx, cancel := context.WithTimeout(ctx, time.Duration(timeoutS+2)*time.Second)
+	// The limit is CPU time (ulimit -t), so that a loaded machine does not turn a 0.1 s proof into a timeout;
+	// the wall-clock limits (solver option and context) are a generous multiple and only guard against a wedged process.
+	wallS := timeoutS*8 + 30
+	argv := sp.argv(file, wallS)
+	cctx, cancel := context.WithTimeout(ctx, time.Duration(wallS+2)*time.Second)
 	defer cancel()
-	cmd := exec.CommandContext(cctx, argv[0], argv[1:]...)
+	sh := append([]string{"-c", fmt.Sprintf("ulimit -t %d; exec \"$@\"", timeoutS+1), "sh"}, argv...)
+	cmd := exec.CommandContext(cctx, "/bin/sh", sh...)
 	var out bytes.Buffer
 	cmd.Stdout = &out
 	cmd.Stderr = &out
@@ -377,6 +381,9 @@ func runOne(sp solverSpec, file string, timeoutS int, ctx context.Context) Solve
 	case first == "unknown":
 		res.Status = "unknown"
 	case first == "timeout" || cctx.Err() != nil:
+		res.Status = "timeout"
+	case cmd.ProcessState != nil && !cmd.ProcessState.Exited():
+		// killed by a signal: the CPU limit (SIGXCPU/SIGKILL)
 		res.Status = "timeout"
 	default:
 		if strings.Contains(raw, "timeout") || strings.Contains(raw, "interrupted") {
